@@ -24,6 +24,7 @@ type c11Desc struct {
 	Seed  int64  `json:"seed"`
 	Kind  string `json:"kind"` // records | session
 	Perms int    `json:"perms,omitempty"`
+	Big   int    `json:"big,omitempty"` // session: number of tiny distinct blocks (large in-memory index at Finalize)
 }
 
 type c11Rec struct {
@@ -259,6 +260,15 @@ func runC11(t *mon.T, raw json.RawMessage) {
 func c11Session(t *mon.T, d c11Desc) {
 	r := gen.Rand(d.Seed)
 	content := gen.MakeContent(r, gen.ContentOpts{MinBlocks: 1, MaxBlocks: 12, MaxRoots: 2, Dups: true, Synthetic: true, Block: gen.BlockOpts{MaxSize: 120}})
+	if d.Big > 0 {
+		// many tiny blocks with synthetic, pairwise distinct digests of three widths and two hash codes
+		content.Blocks = content.Blocks[:0]
+		for i := 0; i < d.Big; i++ {
+			dg := gen.Bytes(r, []int{32, 32, 20, 64}[i%4])
+			content.Blocks = append(content.Blocks, refcar.Block{Cid: refcar.MakeCidV1(0x55, []uint64{0x12, 0x13}[i%2], dg), Data: []byte{byte(i), byte(i >> 8)}})
+		}
+		t.Cover("big-sessions")
+	}
 	cfg := lab.Cfg{Sorted: r.Intn(2) == 0, StoreID: r.Intn(2) == 0, AllowDup: r.Intn(3) == 0, WholeCID: r.Intn(3) == 0, DataPad: uint64(r.Intn(3) * 17)}
 	dir := lab.TempDir("c11")
 	defer os.RemoveAll(dir)
@@ -333,16 +343,20 @@ func genC11(g *mon.G) {
 	for i := 0; i < g.Pick(400, 8000); i++ {
 		g.Emit(c11Desc{Seed: r.Int63(), Kind: "session"})
 	}
+	// sessions whose in-memory index is large when it is flattened (tens of thousands of records)
+	for i := 0; i < g.Pick(3, 24); i++ {
+		g.Emit(c11Desc{Seed: r.Int63(), Kind: "session", Big: []int{17000, 40000, 70000}[i%3] + r.Intn(5000)})
+	}
 }
 
 func init() {
 	Register(&mon.Check{
 		ID:          "C11",
 		Level:       "exploration",
-		Rule:        "cases = (a) seeded record multisets (8 hash codes, digest widths 0..80, repeated digests with distinct offsets and under other hash codes, offsets up to 2^63-1) loaded in 8 (quick) / 24 (thorough) permutations into both on-disk codecs: reported byte count, strict reference parse, bucket/entry order, multiset equality, permutation invariance, ReadFrom round trip (seekable and plain reader) with identical GetAll/ForEach and byte-identical re-marshal; (b) writing sessions whose embedded (flattened) index is compared with GenerateIndex over the finished payload",
+		Rule:        "cases = (a) seeded record multisets (8 hash codes, digest widths 0..80, repeated digests with distinct offsets and under other hash codes, offsets up to 2^63-1) loaded in 8 (quick) / 24 (thorough) permutations into both on-disk codecs: reported byte count, strict reference parse, bucket/entry order, multiset equality, permutation invariance, ReadFrom round trip (seekable and plain reader) with identical GetAll/ForEach and byte-identical re-marshal; (b) writing sessions (1-12 blocks, plus a few with 17k-75k tiny blocks so that the in-memory index is large when flattened) whose embedded (flattened) index is compared with GenerateIndex over the finished payload",
 		Assumptions: []string{"reference index parser/builder (refcar)", "order among entries sharing one digest is left open by the format and is canonicalised before comparison"},
 		Gen:         genC11,
 		Run:         runC11,
-		MinCover:    map[string]int{"multisets-with-repeated-digest": 20, "sessions": 50, "sessions-without-repeated-digest": 10, "sessions-with-repeated-digest": 5},
+		MinCover:    map[string]int{"multisets-with-repeated-digest": 20, "sessions": 50, "sessions-without-repeated-digest": 10, "sessions-with-repeated-digest": 5, "big-sessions": 3},
 	})
 }
